@@ -37,6 +37,8 @@ pub enum Step {
     Config { idx: u8 },
     CodeActions { doc: u8 },
     DeleteFile { doc: u8 },
+    /// open / change / save / dictionary commands on one of ODD_URIS
+    OddUri { which: u8, text: u8 },
 }
 
 #[derive(Debug, Clone, Serialize, Deserialize, PartialEq, Eq, Hash)]
@@ -46,6 +48,9 @@ pub struct Session {
 }
 
 const DOCS: [(&str, &str); 4] = [("a.md", "markdown"), ("b.txt", "plaintext"), ("c.rs", "rust"), ("d.html", "html")];
+/// document URIs an editor can send that are not plain local paths: a `file:` URI with a host
+/// authority, an unsaved buffer, a URI with percent-escapes and a query
+const ODD_URIS: [&str; 4] = ["file://buildhost/tmp/hv-remote.md", "untitled:Untitled-7", "file://workstation.corp.example/srv/doc%20x.txt", "file:///tmp/does-not-exist/hv%20q.md?x=1#frag"];
 const TEXTS: &[&str] = &[
     "This is an test with teh frobnix. See https://example.com/secret?token=abc and mail me@example.com.\n",
     "Their is a problem on www.example.org, contact admin@internal.corp.\n",
@@ -274,6 +279,25 @@ fn run_session(c: &Session, ctx: &mut CaseCtx) -> Result<Result<(), String>, Lsp
                     srv.code_actions(&sb.uri(DOCS[i].0), (0, 0), (0, 5))?;
                 }
             }
+            Step::OddUri { which, text } => {
+                let uri = ODD_URIS[*which as usize % ODD_URIS.len()];
+                let t = TEXTS[*text as usize % TEXTS.len()];
+                // these may or may not be accepted; whatever happens must stay on this machine
+                srv.notify("textDocument/didOpen", json!({"textDocument": {"uri": uri, "languageId": "markdown", "version": 1, "text": t}}))?;
+                srv.settle(Duration::from_millis(150))?;
+                srv.notify("textDocument/didChange", json!({"textDocument": {"uri": uri, "version": 2}, "contentChanges": [{"text": t}]}))?;
+                srv.notify("textDocument/didSave", json!({"textDocument": {"uri": uri}}))?;
+                srv.settle(Duration::from_millis(150))?;
+                for cmd in ["HarperAddToFileDict", "HarperAddToUserDict"] {
+                    let id = srv.request("workspace/executeCommand", json!({"command": cmd, "arguments": [format!("zqodd{saves}"), uri]}))?;
+                    // the server may answer, fail or (on unparsable URIs) die with the request; do not insist
+                    let _ = srv.wait_response(id, Duration::from_secs(5));
+                    saves += 1;
+                }
+                srv.notify("textDocument/didClose", json!({"textDocument": {"uri": uri}}))?;
+                srv.settle(Duration::from_millis(100))?;
+                ctx.class("odd_uri");
+            }
             Step::DeleteFile { doc } => {
                 let i = *doc as usize % 4;
                 let was = open[i];
@@ -349,6 +373,7 @@ fn step() -> BoxedStrategy<Step> {
         2 => any::<u8>().prop_map(|idx| Step::Config { idx }),
         1 => (0u8..4).prop_map(|doc| Step::CodeActions { doc }),
         1 => (0u8..4).prop_map(|doc| Step::DeleteFile { doc }),
+        2 => (0u8..4, any::<u8>()).prop_map(|(which, text)| Step::OddUri { which, text }),
     ]
     .boxed()
 }
